@@ -10,12 +10,29 @@ From CM Require Import Model.MiniPy Model.Rewrites Proofs.RewriteFacts.
 From CM Require Import Model.Args Proofs.ArgsFacts.
 From CM Require Properties.C16.
 
-Theorem C07_whole_run_lift : C07_lift_statement run_tables_v.
+(** Whole-run lift, about a FIRST run: run K, then run K again on what the first run left (fresh invocation, any stores):
+    the second run writes no file, no manifest, reports no change set and requests no dependency.  Explicit contracts:
+    round trip parse (code t) = Some t; no dependency without a reported rewrite; local idempotence of (detector,
+    transformer) on one file.  _partial: the contracts are oracle contracts (discharged for use-generator below, searched
+    otherwise); a manifest that is also a selected source (setup.py) is excluded. *)
+From CM Require Import Proofs.LiftKernels.
+Theorem C07_whole_run_lift_partial : C07_lift_statement run_tables_v.
 Proof. exact C07_lift. Qed.
-Print Assumptions C07_whole_run_lift.
+Print Assumptions C07_whole_run_lift_partial.
+(** the lemma it uses: on a tree whose files are quiet for (detector, transformer) of K, a run of K is a no-op *)
+Theorem C07_quiet_tree_noop : C07_quiet_statement run_tables_v.
+Proof. exact C07_quiet_run. Qed.
+Print Assumptions C07_quiet_tree_noop.
+(** lifting + kernel, composed: two successive runs of a detector-less codemod whose transformer is use-generator's rewrite
+    (in a configuration where the kernel is idempotent, as the one read from the current source): the second is a no-op *)
+Theorem C07_use_generator_two_runs : C07_generator_two_runs_statement run_tables_v.
+Proof. exact (C07_generator_two_runs_all run_tables_v). Qed.
+Print Assumptions C07_use_generator_two_runs.
+Example C07_generator_cfg_is_stable : generator_stable generator_cfg_v = true.
+Proof. reflexivity. Qed.
 (** the statement above is the law, not the vacuous branch: on the tables read from the current source every pipeline
     returns early when the transformer reports no change (if a pipeline loses that guard this example stops compiling) *)
-Example C07_lift_not_vacuous : nochange_guarded run_tables_v = true.
+Example C07_lift_not_vacuous : libcst_nochange_guarded run_tables_v = true.
 Proof. reflexivity. Qed.
 
 (** use-generator is idempotent on every expression when calls are never entered (pinned form, first repair) or when nested
